@@ -42,6 +42,11 @@ InitMap == \E k \in {"openapi31"}, x \in {"pyd"}, p \in {"none", "rpc"} :
               \/ \E m1 \in MethodSmall : InitWith(SM(S(k, x, p, <<m1>>)))
               \/ \E m1 \in MethodSmall \cup MapExtra, m2 \in {M("f3", "root", "own", "t1", "none"), M("f2", "api", "shared", "none", "P_")} \cup MapExtra :
                     DistinctNames(<<m1, m2>>) /\ InitWith(SM(S(k, x, p, <<m1, m2>>)))
-InitQuick == InitN(MethodSmall, 2) \/ InitMap \/ InitGrow
-InitThorough == InitN(MethodSmall, 3) \/ InitMap \/ InitGrow
+SW(s) == [s EXCEPT !.plan = "swap"]
+InitSwap == \E k \in Kinds : \E x \in Extractors(k) :
+               \/ \E m1 \in {M("f1", "root", "own", "t1", "P_"), F(M("f2", "root", "unset", "none", "none")), X(M("f3", "root", "own", "none", "none"))} :
+                     InitWith(SW(S(k, x, "none", <<m1>>)))
+               \/ InitWith(SW(S(k, x, "none", <<M("f1", "root", "shared", "t1", "none"), F(M("f2", "api", "shared", "none", "P_"))>>)))
+InitQuick == InitN(MethodSmall, 2) \/ InitMap \/ InitGrow \/ InitSwap
+InitThorough == InitN(MethodSmall, 3) \/ InitMap \/ InitGrow \/ InitSwap
 =============================================================================
